@@ -23,6 +23,7 @@ from ..quant import gross, q8, q12
 
 MESH_KW = dict(check_open="ignore", check_disconnected="ignore", check_selfintersecting="ignore", reorient_faces="ignore")
 POLY_NS = (16, 64, 256)
+SUM_LAWS = ("Split", "SplitSeg", "Merge", "Convert", "Op")       # conclusions on sums over the sources: two-limb quantization
 
 
 # ------------------------------------------------------------------------------------------- concretization
@@ -47,6 +48,16 @@ def kappa_params(salt, decades, lam_exact=None):
         q = np.array([0.0, 0.0, 0.0, 1.0])      # no global rotation: the lattice orientations themselves (exact inverse pairs, axes in special planes)
     t0 = [r.uniform(-3, 3) for _ in range(3)]
     return {"lam0": lam0, "quat": q.tolist(), "t0": t0, "decade": int(math.floor(math.log10(lam0) + 1e-12))}
+
+
+def exact_gauge(salt):
+    """The lattice itself: no global rotation, no translation, lattice unit a power of two (every lattice coordinate, dimension and
+    difference is exact in binary floating point).  Observers placed exactly ON the extension of an edge or of a face plane are
+    seen there by the implementation too; a generic rotation would move them off by rounding noise."""
+    r = rng("exact:" + salt)
+    e = r.randint(-30, 30)                     # 2^-30 .. 2^30 = 1e-9 .. 1e9 m
+    lam0 = 2.0 ** e
+    return {"lam0": lam0, "quat": [0.0, 0.0, 0.0, 1.0], "t0": [0.0, 0.0, 0.0], "decade": int(math.floor(math.log10(lam0) + 1e-12))}
 
 
 def regauge(kp, salt):
@@ -104,16 +115,39 @@ class Builder:
         if c in ("TriangularMesh", "TriangleCollection"):
             verts = np.array(g[0], dtype=float) * u
             faces = np.array(g[1], dtype=int) - 1 if len(g[1]) else None
+            for fi in src.get("flip", []):     # these faces are handed over with inverted winding
+                faces[fi - 1] = faces[fi - 1][[0, 2, 1]]
             rep = src["rep"]
             TM = m.magnet.TriangularMesh
             if rep == "from_ConvexHull":
-                return TM.from_ConvexHull(points=verts, polarization=exc, **MESH_KW, **kw)
-            if rep == "from_mesh":
-                return TM.from_mesh(mesh=verts[faces], polarization=exc, **MESH_KW, **kw)
-            if rep == "from_triangles":
+                mesh = TM.from_ConvexHull(points=verts, polarization=exc, **MESH_KW, **kw)
+            elif rep == "from_mesh":
+                mesh = TM.from_mesh(mesh=verts[faces], polarization=exc, **MESH_KW, **kw)
+            elif rep == "from_triangles":
                 tris = [m.misc.Triangle(vertices=verts[fc], polarization=exc) for fc in faces]
-                return TM.from_triangles(triangles=tris, polarization=exc, **MESH_KW, **kw)
-            mesh = TM(vertices=verts, faces=faces, polarization=exc, **MESH_KW, **kw)
+                mesh = TM.from_triangles(triangles=tris, polarization=exc, **MESH_KW, **kw)
+            elif rep == "ctor_skip":           # built un-normalised: the faces stay as given until reorient_faces() is called
+                mesh = TM(vertices=verts, faces=faces, polarization=exc, **dict(MESH_KW, reorient_faces="skip"), **kw)
+            else:
+                mesh = TM(vertices=verts, faces=faces, polarization=exc, **MESH_KW, **kw)
+            # the history of the live object
+            probe = np.asarray(mesh.position).reshape(-1, 3)[0] + kap.vec(np.array([0.37, -0.23, 0.61]) * u)
+            for op in src.get("ops", []):
+                if op == "use":
+                    mesh.getB(probe)
+                    mesh.getH(probe)
+                elif op == "mesh":
+                    _ = mesh.mesh.shape
+                elif op == "tricoll":
+                    mesh.to_TriangleCollection()
+                elif op == "check":
+                    mesh.check_open(mode="ignore")
+                    mesh.check_disconnected(mode="ignore")
+                    mesh.check_selfintersecting(mode="ignore")
+                elif op == "reorient":
+                    mesh.reorient_faces(mode="ignore")
+                else:
+                    raise MachineryError(f"unknown object operation {op}")
             if c == "TriangleCollection":
                 return mesh.to_TriangleCollection()
             return mesh
@@ -198,7 +232,7 @@ def quantize_pair(b, a, fine, shift):
 
 
 def fields_of(act):
-    return ("B", "H") if act["name"] in ("Split", "SplitSeg", "Merge", "Convert") else ("B", "H", "J")
+    return ("B", "H") if act["name"] in SUM_LAWS else ("B", "H", "J")
 
 
 def is_polygon(act):
@@ -224,7 +258,7 @@ class Instancer:
         """inst: {"tid", "pre", "act", "post", "kappa", ["kappa2"]} -> event for TV_Laws"""
         pre, act, post, kp = inst["pre"], inst["act"], inst["post"], inst["kappa"]
         fields = fields_of(act)
-        fine = act["name"] in ("Split", "SplitSeg", "Merge", "Convert")
+        fine = act["name"] in SUM_LAWS
         mb = self.meas(pre, kp, fields)
         nobs = len(pre["obs"])
         ev = {"tid": inst["tid"], "pre": pre, "act": act, "post": post, "kappa": {"decade": kp["decade"]}}
@@ -287,7 +321,11 @@ def plan_from_states(states, mode, cap=None):
         for c in range(nregauge if act["name"] == "Reconcretize" else 1):
             tid += 1
             if mode == "C12":
-                kp = kappa_params(f"{h}", (0, 0), lam_exact=1.0)      # lambda = 10^k exactly: the decade is cfg.k
+                # the decade is cfg.k; the lattice unit is 10^k m exactly for one half of the plan and m * 10^k m with a generic
+                # mantissa m in [1, 10) for the other half (coordinates that are not round numbers of metres)
+                kp = kappa_params(f"{h}", (0, 0), lam_exact=1.0) if tid % 2 else kappa_params(f"{h}:mant", (0, 1))
+            elif any(o["lab"].startswith("ext_") for o in pre["obs"]) or (act["name"] != "Reconcretize" and tid % nslots == 0 and mode == "C13"):
+                kp = exact_gauge(f"{h}:{tid % 3}")
             elif act["name"] == "Reconcretize":
                 # spread the lattice unit over the decades 1e-9 .. 1e9
                 lo = -9 + 18.0 * c / nregauge
@@ -364,7 +402,7 @@ def run_check(pid, rep, cap=None):
     rep.set("instances_planned", len(insts))
     kinds = {}
     for i in insts:
-        k = i["act"]["name"] + (":" + str(i["act"].get("rep", i["act"].get("kind", ""))) if i["act"]["name"] in ("Convert", "SplitSeg") else "")
+        k = i["act"]["name"] + (":" + str(i["act"].get("rep", i["act"].get("kind", i["act"].get("op", "")))) if i["act"]["name"] in ("Convert", "SplitSeg", "Op") else "")
         kinds[k] = kinds.get(k, 0) + 1
     rep.set("instances_by_action", kinds)
     files, nlogged = run_plan(insts, f"laws_{pid}")
